@@ -51,7 +51,7 @@ class Gen:
             return "NULL"
         if k == "int":
             c = t["con"]
-            return "INTEGER" if c["c"] == "none" else "INTEGER (%d..%d%s)" % (c["lb"], c["ub"], ",..." if c["ext"] else "")
+            return "INTEGER" if c["c"] == "none" else "INTEGER (%d..%s%s)" % (c["lb"], c.get("ubText", c["ub"]), ",..." if c["ext"] else "")
         if k == "str":
             s = self.size(t["sz"])
             return CS[t["cs"]] + (" " + s if s else "")
@@ -203,6 +203,8 @@ def generate(zoo, outdir, features=()):
     os.makedirs(os.path.join(outdir, "src"), exist_ok=True)
     w_arms = "".join("        %d => from_T%d(v).map(|x| w.write(&x)),\n" % (i, i) for i in idx)
     r_arms = "".join("        %d => r.read::<T%d>().map(|x| to_T%d(&x)),\n" % (i, i, i) for i in idx)
+    pw_arms = "".join("        %d => from_T%d(v).map(|x| w.write(&x)),\n" % (i, i) for i in idx)
+    pr_arms = "".join("        %d => r.read::<T%d>().map(|x| to_T%d(&x)),\n" % (i, i, i) for i in idx)
     rs = ("// @generated by tools/zoogen.py from the TLA+ zoo - do not edit\n#![allow(unused, clippy::all)]\n"
           "use asn1rs::prelude::*;\nuse asn1rs::descriptor::bitstring::BitVec;\nuse serde_json::{json, Value};\nuse vharness::glue::*;\n\n"
           "asn_to_rust!(\n    r#\"" + asn + "\"#\n);\n\n" + "\n".join(g.glue) +
@@ -210,8 +212,12 @@ def generate(zoo, outdir, features=()):
           "        _ => panic!(\"no such zoo type\"),\n    }\n}\n\n"
           "pub fn read(ti: usize, r: &mut UperReader<Bits<'_>>) -> Result<Value, asn1rs::protocol::per::Error> {\n    match ti {\n" + r_arms +
           "        _ => panic!(\"no such zoo type\"),\n    }\n}\n\n"
+          "pub fn pwrite(ti: usize, v: &Value, w: &mut ProtobufWriter<'_>) -> Option<Result<(), asn1rs::protocol::protobuf::Error>> {\n    match ti {\n" + pw_arms +
+          "        _ => panic!(\"no such zoo type\"),\n    }\n}\n\n"
+          "pub fn pread(ti: usize, r: &mut ProtobufReader<'_>) -> Result<Value, asn1rs::protocol::protobuf::Error> {\n    match ti {\n" + pr_arms +
+          "        _ => panic!(\"no such zoo type\"),\n    }\n}\n\n"
           "pub const TYPES: &[usize] = &[" + ", ".join(str(i) for i in idx) + "];\n\n"
-          "fn main() {\n    vharness::zoo::main(vharness::zoo::Api { write, read, types: TYPES });\n}\n")
+          "fn main() {\n    vharness::zoo::main(vharness::zoo::Api { write, read, pwrite, pread, types: TYPES });\n}\n")
     main = os.path.join(outdir, "src", "main.rs")
     old = open(main).read() if os.path.exists(main) else None
     if old != rs:
